@@ -2,10 +2,16 @@ import Skc.Drv.Json
 import Skc.Drv.OpsC03
 import Skc.Drv.OpsAgg
 import Skc.Drv.OpsDom
+import Skc.Drv.OpsElectre
 import Skc.Drv.OpsC01
 import Skc.Drv.OpsC18
 import Skc.Drv.OpsC14
 import Skc.Drv.OpsC17
+import Skc.Drv.OpsC13
+import Skc.Drv.OpsC09
+import Skc.Drv.OpsC19
+import Skc.Drv.OpsC02
+import Skc.Drv.OpsC16
 /-! Dispatch of driver operations to the executable model: one handler per property file. -/
 open Lean
 namespace Skc.Drv
@@ -14,10 +20,16 @@ def handlers : List (String → Json → Option (Except String Json)) :=
   [ handleC03
   , handleAgg
   , handleDom
+  , handleElectre
   , handleC01
   , handleC18
   , handleC14
   , handleC17
+  , handleC13
+  , handleC09
+  , handleC19
+  , handleC02
+  , handleC16
   ]
 
 def handle (j : Json) : Except String Json := do
